@@ -33,7 +33,7 @@ func dynFabio(t interface{ Fatalf(string, ...any) }) *config.Config {
 	dynOnce.Do(func() {
 		// (a deregistration grace period longer than the wait is configured as well: it delays the
 		// start of the shutdown in main.go, it is not part of the wait handed to proxy.Shutdown)
-		cfg, err := config.Load([]string{"fabio", "-proxy.shutdownwait", dynWait.String(), "-proxy.deregistergraceperiod", "3s", "-proxy.addr", fmt.Sprintf("127.0.0.1:0;proto=tcp-dynamic;refresh=%s", dynRefresh)}, nil)
+		cfg, err := config.Load([]string{"fabio", "-proxy.shutdownwait", dynWait.String(), "-proxy.deregistergraceperiod", "3s", "-proxy.strategy", "rr", "-proxy.addr", fmt.Sprintf("127.0.0.1:0;proto=tcp-dynamic;refresh=%s", dynRefresh)}, nil)
 		if err != nil {
 			t.Fatalf("config: %v", err)
 		}
